@@ -31,6 +31,8 @@ class Ctx:
             args += ["--case", str(rp["case"])]
         if rp.get("leg") == "vread":
             args += ["--vread"]
+        if rp.get("crash") and "stream" in rp:
+            args += ["--only-stream", str(rp["stream"])]
 
         return args
 
